@@ -335,5 +335,5 @@ pub fn replay(v: &Value) -> Vec<Failure> {
     let (_, _, fails) = check(&case);
     std::env::set_current_dir("/").unwrap();
     let _ = std::fs::remove_dir_all(&root);
-    fails.into_iter().map(|(signature, detail)| Failure { signature, case: v.clone(), detail }).collect()
+    fails.into_iter().map(|(signature, detail)| Failure { signature, case: v.clone(), detail, hash: 0 }).collect()
 }
